@@ -70,9 +70,13 @@ def check_stream(ctx, L, ex):
         # a malformed stream (still cut into the same packets): compare complete warn-mode decodes
         k = data.draw(st.integers(0, len(msgs) - 1))
         m = bytearray(msgs[k])
-        pos = data.draw(st.integers(6, max(6, len(m) - 1))) if len(m) > 6 else 0
-        if m:
-            m[min(pos, len(m) - 1)] ^= data.draw(st.sampled_from([0x01, 0x80, 0xFF]))
+        if data.draw(st.booleans()) and len(m) >= 6:
+            # a wrong size field, including ones smaller than the header and larger than the packet
+            nv = data.draw(st.sampled_from([0, 1, 5, 9, 10, 11, len(m) - 1, len(m) + 1, len(m) + 4, 0xFFFFFFFF]))
+            m[2:6] = max(0, nv).to_bytes(4, "big")
+        elif m:
+            pos = data.draw(st.integers(0, len(m) - 1))
+            m[pos] ^= data.draw(st.sampled_from([0x01, 0x80, 0xFF]))
         msgs[k] = bytes(m)
         carried = b"".join(msgs)
         strict = False
@@ -92,16 +96,23 @@ def check_stream(ctx, L, ex):
     got = summary(O.run_decode(T, text.encode(), strict=strict, marshal=SWTPMLog.marshal))
     if not same(ctx, "swtpm-log", got, base, dict(payload, container="swtpm", text=text), what + f"; log {text[:400]!r}"):
         return
-    # (c) pcapng: packets are trimmed to their own size field, so only well-formed size fields carry over exactly
-    if strict:
-        cap, noise = data.draw(containers.pcapng_capture(msgs))
-        ctx.case(("pcapng", cap), noise["runts"] + noise["trailers"] > 0, sample={"container": "pcapng", "bytes": len(cap), **noise} if noise["runts"] and noise["trailers"] else None)
-        got = summary(O.run_decode(T, cap, strict=strict, marshal=Pcapng.marshal))
-        if not same(ctx, "pcapng", got, base, dict(payload, container="pcapng", capture=cap), what + f"; capture of {len(cap)} bytes, noise {noise}"):
-            return
-        got = summary(O.run_decode(T, cap, strict=strict, marshal=Auto.marshal))
-        if not same(ctx, "auto-pcapng", got, base, dict(payload, container="auto-pcapng", capture=cap), what):
-            return
+    # (c) pcapng: what a capture carries is each TPM packet trimmed to its own size field, runts (< 10 bytes) skipped
+    cap, noise = data.draw(containers.pcapng_capture(msgs))
+    pbase = base
+    pcarried = noise.pop("carried")
+    if pcarried != carried:
+        if strict:
+            from ..runner import HarnessError
+
+            raise HarnessError("pcapng reference: a well-formed stream must be carried unchanged")
+        pbase = summary(O.run_decode(T, pcarried, strict=strict))
+    ctx.case(("pcapng", cap), noise["runts"] + noise["trailers"] > 0 or not strict, sample={"container": "pcapng", "bytes": len(cap), **noise} if noise["runts"] and noise["trailers"] else None)
+    got = summary(O.run_decode(T, cap, strict=strict, marshal=Pcapng.marshal))
+    if not same(ctx, "pcapng", got, pbase, dict(payload, container="pcapng", capture=cap), what + f"; capture of {len(cap)} bytes, noise {noise}"):
+        return
+    got = summary(O.run_decode(T, cap, strict=strict, marshal=Auto.marshal))
+    if not same(ctx, "auto-pcapng", got, pbase, dict(payload, container="auto-pcapng", capture=cap), what):
+        return
     # (d) auto on binary and on hex text starting with a hex pair
     ctx.case(("auto-binary", carried), True)
     got = summary(O.run_decode(T, carried, strict=strict, marshal=Auto.marshal))
@@ -162,6 +173,37 @@ def hex_exhaustive(ctx, max_len):
                 return
 
 
+def hex_byte_sweep(ctx):
+    """Every byte value 0..255 inserted at every position of a few valid hex texts: only the six ASCII whitespace bytes may
+    be skipped, hex digits change the pairing, every other byte must be rejected with ValueError."""
+    from tpmstream.io.hex import Hex
+
+    bases = [b"8001", b"80 01\n", b"0a\tFf 10", b"C7"]
+    i = 0
+    for base in bases:
+        for pos in range(len(base) + 1):
+            for b in range(256):
+                i += 1
+                if i % ctx.nshards != ctx.shard:
+                    continue
+                raw = base[:pos] + bytes([b]) + base[pos:]
+                text = raw.decode("latin-1")
+                ref = containers.hex_reference(text)
+                ctx.case(("hexb", raw), b >= 0x80 or b < 0x20, sample={"text_bytes": raw.hex(), "carries": None if ref is None else ref.hex()} if b in (0x85, 0x1C) and pos == 2 else None)
+                ctx.count("hex_byte_insertions")
+                got = O.run_decode("UINT16", raw, strict=False, marshal=Hex.marshal)
+                if ref is None:
+                    if got.outcome["kind"] != "crash" or got.outcome.get("class") != "ValueError":
+                        ctx.problem("C15:hex:accepted-bad-text", f"hex text (bytes {raw.hex()}) holds the byte {b:#04x}, which is neither a hex digit nor ASCII whitespace, but was decoded: {got.events} / {summary(got)[1]}", {"container": "hex-bytes", "raw": raw})
+                        return
+                else:
+                    from tpmstream.io.binary import Binary
+
+                    want = summary(O.run_decode("UINT16", ref, strict=False, marshal=Binary.marshal))
+                    if not same(ctx, "hex:text", summary(got), want, {"container": "hex-bytes", "raw": raw}, f"hex text bytes {raw.hex()} carry {ref.hex()}"):
+                        return
+
+
 def swtpm_exhaustive(ctx, max_len):
     from tpmstream.io.swtpm_log import SWTPMLog
 
@@ -186,6 +228,7 @@ def run_shard(ctx):
     q = ctx.quick()
     ctx.run_plain(lambda: hex_exhaustive(ctx, 6 if q else 7), "hex-exhaustive")
     ctx.run_plain(lambda: swtpm_exhaustive(ctx, 5 if q else 6), "swtpm-exhaustive")
+    ctx.run_plain(lambda: hex_byte_sweep(ctx), "hex-byte-sweep")
     ctx.run_given(st.tuples(gen.streams(L, max_pairs=3), st.data(), st.just(False)), lambda ex: check_stream(ctx, L, ex), ctx.share(900 if q else 12000), name="streams")
     ctx.run_given(st.tuples(gen.streams(L, max_pairs=2), st.data(), st.just(True)), lambda ex: check_stream(ctx, L, ex), ctx.share(300 if q else 4000), name="malformed-streams")
     ctx.run_given(st.tuples(gen.structures(L), st.data()), lambda ex: check_structure_hex(ctx, L, ex), ctx.share(400 if q else 5000), name="structures-hex")
@@ -195,6 +238,13 @@ def replay(ctx, payload):
     from tpmstream.io.hex import Hex
     from tpmstream.io.swtpm_log import SWTPMLog
 
+    if payload.get("container") == "hex-bytes":
+        raw = payload["raw"]
+        ref = containers.hex_reference(raw.decode("latin-1"))
+        got = O.run_decode("UINT16", raw, strict=False, marshal=Hex.marshal)
+        if ref is None and not (got.outcome["kind"] == "crash" and got.outcome.get("class") == "ValueError"):
+            ctx.problem("C15:hex:accepted-bad-text", f"hex text bytes {raw.hex()} decoded: {got.events}", payload)
+        return
     if payload.get("container") in ("hex", "swtpm") and "type" not in payload:
         text = payload["text"]
         if payload["container"] == "hex":
